@@ -297,9 +297,20 @@ def translators(pid, prop):
             continue
         args = [a.replace("{repo}", REPO).replace("{verif}", VERIF) for a in t["args"]]
         outp = os.path.join(VERIF, t["out"])
-        rc, o = run([tool] + args + ["-out", outp], cwd=VERIF, timeout=600)
-        if rc != 0:
+        os.makedirs(os.path.join(BUILD, pid), exist_ok=True)
+        tmp = os.path.join(BUILD, pid, "translated-" + os.path.basename(outp))
+        if os.path.exists(tmp):
+            os.remove(tmp)
+        rc, o = run([tool] + args + ["-out", tmp], cwd=VERIF, timeout=600)
+        if rc != 0 or not os.path.exists(tmp):
             broken.append("translator %s failed on the current source (%s): %s" % (t["tool"], " ".join(t["args"]), o.strip()[-600:]))
+            continue
+        # normalise the tree path so that a scratch tree (VERIF_REPO) yields the same text as /repo
+        txt = open(tmp).read().replace(os.path.realpath(REPO) + "/", "/repo/").replace(REPO.rstrip("/") + "/", "/repo/")
+        old_txt = open(outp).read() if os.path.exists(outp) else None
+        if txt != old_txt:
+            with open(outp, "w") as f:
+                f.write(txt)
     return broken
 
 
